@@ -779,6 +779,7 @@ class FnTranslator:
         if gbody and isinstance(gbody[0], ast.Expr) and isinstance(gbody[0].value, ast.Constant):
             gbody = gbody[1:]
         conds = []
+        aliases = {first}
         ex = ExprTr(self, env_override=env)
         for st in gbody[:-1]:
             if (isinstance(st, ast.Assign) and len(st.targets) == 1 and isinstance(st.targets[0], ast.Name)
@@ -787,6 +788,17 @@ class FnTranslator:
                     and len(st.value.args) == 1 and isinstance(st.value.args[0], ast.Name)
                     and st.value.args[0].id == first and self.vars[subject] == INT):
                 continue                         # value = int(value): the identity on Int
+            if (isinstance(st, ast.Assign) and len(st.targets) == 1 and isinstance(st.targets[0], ast.Name)
+                    and st.targets[0].id not in gnames and isinstance(st.value, ast.Call)
+                    and isinstance(st.value.func, ast.Name) and st.value.func.id == 'int'
+                    and not st.value.keywords
+                    and len(st.value.args) == 1 and isinstance(st.value.args[0], ast.Name)
+                    and st.value.args[0].id == first and self.vars[subject] == INT):
+                # round 3b: `int_value = int(value)` - a fresh local holding the converted argument: on Int an
+                # alias of the subject (usable in the conditions and as the returned name)
+                env[st.targets[0].id] = env[first]
+                aliases.add(st.targets[0].id)
+                continue
             if (isinstance(st, ast.Assign) and len(st.targets) == 1 and isinstance(st.targets[0], ast.Tuple)
                     and isinstance(st.value, ast.Tuple) and len(st.targets[0].elts) == len(st.value.elts)
                     and self.vars[subject] == INT
@@ -807,7 +819,7 @@ class FnTranslator:
                 continue
             raise Unsupported(st, 'guard body statement')
         last = gbody[-1] if gbody else None
-        if not (isinstance(last, ast.Return) and isinstance(last.value, ast.Name) and last.value.id == first):
+        if not (isinstance(last, ast.Return) and isinstance(last.value, ast.Name) and last.value.id in aliases):
             raise Unsupported(g, 'guard must end with `return <first parameter>`')
         if not conds:
             return 'true'
